@@ -55,17 +55,28 @@ Definition decomp_b (M : BoolMatrix) (T : SRect) (Bs : list SRect) : bool :=
 (* ---------- existence of a decomposition, by brute force over the trunk ----------
    For a fixed trunk T a decomposition exists iff every cell of T is true and
    every true cell outside T lies straight above / below / left / right of T
-   (within T's extent) with every cell between it and T true as well. *)
+   (within T's extent) with every cell between it and T true as well.
+
+   [allb]/[anyb] are forallb/existsb written with [if] so that vm_compute
+   (call by value) stops at the first decisive element. *)
+Fixpoint allb {A} (f : A -> bool) (l : list A) : bool :=
+  match l with [] => true | a :: t => if f a then allb f t else false end.
+Fixpoint anyb {A} (f : A -> bool) (l : list A) : bool :=
+  match l with [] => false | a :: t => if f a then true else anyb f t end.
+
 Definition strip_ok (M : BoolMatrix) (T : SRect) (i j : nat) : bool :=
-  let incols := (clo T <=? j) && (j <=? chi T) in
-  let inrows := (rlo T <=? i) && (i <=? rhi T) in
-     (incols && (i <? rlo T) && forallb (fun i' => cell M i' j) (seq i (rlo T - i)))
-  || (incols && (rhi T <? i) && forallb (fun i' => cell M i' j) (seq (S (rhi T)) (i - rhi T)))
-  || (inrows && (j <? clo T) && forallb (fun j' => cell M i j') (seq j (clo T - j)))
-  || (inrows && (chi T <? j) && forallb (fun j' => cell M i j') (seq (S (chi T)) (j - chi T))).
+  if (clo T <=? j) && (j <=? chi T) then
+    if i <? rlo T then allb (fun i' => cell M i' j) (seq i (rlo T - i))                 (* north *)
+    else if rhi T <? i then allb (fun i' => cell M i' j) (seq (S (rhi T)) (i - rhi T))  (* south *)
+    else false
+  else if (rlo T <=? i) && (i <=? rhi T) then
+    if j <? clo T then allb (fun j' => cell M i j') (seq j (clo T - j))                 (* west *)
+    else if chi T <? j then allb (fun j' => cell M i j') (seq (S (chi T)) (j - chi T))  (* east *)
+    else false
+  else false.
 
 Definition cellwise_ok (M : BoolMatrix) (T : SRect) : bool :=
-  forallb (fun i => forallb (fun j =>
+  allb (fun i => allb (fun j =>
       if in_rectb T i j then cell M i j
       else if cell M i j then strip_ok M T i j else true) (seq 0 (ncols M))) (seq 0 (nrows M)).
 
@@ -74,7 +85,7 @@ Definition all_rects (nr nc : nat) : list SRect :=
      (seq c0 (nc - c0))) (seq 0 nc)) (seq r0 (nr - r0))) (seq 0 nr).
 
 Definition has_decomp (M : BoolMatrix) : bool :=
-  existsb (fun T => rect_okb (nrows M) (ncols M) T && cellwise_ok M T) (all_rects (nrows M) (ncols M)).
+  anyb (fun T => cellwise_ok M T) (all_rects (nrows M) (ncols M)).
 
 (* the shape of a matrix *)
 Definition shape (M : BoolMatrix) (R C : nat) : Prop :=
